@@ -253,6 +253,14 @@ where
 
 #[derive(Clone, Copy, Debug, Hash, PartialEq, Eq)]
 pub enum RK {
+    /// TooDeeView::new over a slice longer than needed (window = whole shape)
+    SliceView,
+    /// TooDeeViewMut::new over a slice longer than needed
+    SliceViewMut,
+    /// TooDeeView::from(TooDeeViewMut::new(.. longer slice ..))
+    SliceViewMutInto,
+    /// TooDeeView::from(parent.view_mut(window))
+    ViewMutInto,
     Owned,
     View,
     ViewOfView,
@@ -300,8 +308,11 @@ struct ScriptRun<'s> {
 fn run_one(ctx: &mut Ctx, prop: &str, pshape: (usize, usize), win: Win, rk: RK, ik: IK, sr: &ScriptRun<'_>) -> bool {
     let (pc, pr) = pshape;
     let mut parent = parent_of(pc, pr);
-    let base = parent.data().as_ptr() as usize;
-    let before: Vec<u32> = parent.data().to_vec();
+    let on_slice = matches!(rk, RK::SliceView | RK::SliceViewMut | RK::SliceViewMutInto);
+    // slice-backed receivers live over a buffer that is 3 elements longer than the shape needs
+    let mut buf: Vec<u32> = if on_slice { parent.data().iter().copied().chain([7771, 7772, 7773]).collect() } else { vec![] };
+    let base = if on_slice { buf.as_ptr() as usize } else { parent.data().as_ptr() as usize };
+    let before: Vec<u32> = if on_slice { buf.clone() } else { parent.data().to_vec() };
     let (s, e) = win;
     let (mut wc, mut wr) = (e.0 - s.0, e.1 - s.1);
     if wc == 0 || wr == 0 {
@@ -402,6 +413,26 @@ fn run_one(ctx: &mut Ctx, prop: &str, pshape: (usize, usize), win: Win, rk: RK, 
     let is_mut = matches!(ik, IK::RowsMut | IK::ColMut(_) | IK::CellsMut | IK::MutIntoIter);
     let res = catches(|| -> Result<(), ()> {
         match (rk, is_mut) {
+            (RK::SliceView, false) => {
+                let v = TooDeeView::new(pc, pr, &buf);
+                shared_on!(&v)
+            }
+            (RK::SliceViewMut, false) => {
+                let v = TooDeeViewMut::new(pc, pr, &mut buf);
+                shared_on!(&v)
+            }
+            (RK::SliceViewMutInto, false) => {
+                let v: TooDeeView<'_, u32> = TooDeeView::from(TooDeeViewMut::new(pc, pr, &mut buf));
+                shared_on!(&v)
+            }
+            (RK::ViewMutInto, false) => {
+                let v: TooDeeView<'_, u32> = parent.view_mut(s, e).into();
+                shared_on!(&v)
+            }
+            (RK::SliceViewMut, true) => {
+                let mut v = TooDeeViewMut::new(pc, pr, &mut buf);
+                mut_on!(&mut v)
+            }
             (RK::Owned, false) => shared_on!(&parent),
             (RK::View, false) => {
                 let v = parent.view(s, e);
@@ -469,8 +500,9 @@ fn run_one(ctx: &mut Ctx, prop: &str, pshape: (usize, usize), win: Win, rk: RK, 
                 v += 1;
             }
         }
-        if parent.data() != &want[..] {
-            ctx.violation(&name, "iter:write-through", format!("script {:?} term {:?} window {:?} of {}x{}: parent {:?} expected {:?}", script, term, win, pc, pr, parent.data(), want));
+        let now: &[u32] = if on_slice { &buf } else { parent.data() };
+        if now != &want[..] {
+            ctx.violation(&name, "iter:write-through", format!("script {:?} term {:?} window {:?} of {}x{}: buffer {:?} expected {:?}", script, term, win, pc, pr, now, want));
             ok = false;
         }
         // yielded mutable items must be pairwise disjoint
@@ -604,8 +636,8 @@ fn run_iter_prop(ctx: &mut Ctx, prop: &'static str) {
             if (wc == 0 || wr == 0) && (s.0 + 2 * s.1 + e.0 + e.1) % 3 != 0 {
                 continue;
             }
-            for rk in [RK::Owned, RK::View, RK::ViewOfView, RK::ViewMut, RK::ViewMutNested, RK::ViewOfViewMut] {
-                if rk == RK::Owned && win != ((0, 0), (pc, pr)) {
+            for rk in [RK::Owned, RK::View, RK::ViewOfView, RK::ViewMut, RK::ViewMutNested, RK::ViewOfViewMut, RK::ViewMutInto, RK::SliceView, RK::SliceViewMut, RK::SliceViewMutInto] {
+                if matches!(rk, RK::Owned | RK::SliceView | RK::SliceViewMut | RK::SliceViewMutInto) && win != ((0, 0), (pc, pr)) {
                     continue;
                 }
                 // big native sweeps: nested receivers only on a subset
@@ -613,7 +645,7 @@ fn run_iter_prop(ctx: &mut Ctx, prop: &'static str) {
                     continue;
                 }
                 let mut iks: Vec<IK> = vec![];
-                let can_mut = matches!(rk, RK::Owned | RK::ViewMut | RK::ViewMutNested);
+                let can_mut = matches!(rk, RK::Owned | RK::ViewMut | RK::ViewMutNested | RK::SliceViewMut);
                 match prop {
                     "C08" => {
                         iks.push(IK::Rows);
